@@ -2408,7 +2408,7 @@ column_41			(vbi_page *		pg,
 	acp = pg->text + 41;
 
 	if (!black0 && cont39) {
-		for (row = 1; row <= 24; ++row) {
+		for (row = 1; row <= 23; ++row) {
 			acp[40] = acp[39];
 
 			if (!vbi_is_gfx (acp[39].unicode))
@@ -2426,13 +2426,15 @@ column_41			(vbi_page *		pg,
 		ac.background	= ext->background_clut + VBI_BLACK;
 		ac.opacity	= pg->page_opacity[1];
 
-		for (row = 1; row <= 24; ++row) {
+		for (row = 1; row <= 23; ++row) {
 			acp[40] = ac;
 			acp += 41;
 		}
 	}
 
-	/* Navigation bar. */
+	/* Navigation bar, row 24: the body loops above stop at row 23 and
+	   leave acp there. (They used to run to row 24 and this statement
+	   stored into pg->text[25 * 41 + 40], behind the array.) */
 
 	acp[40] = acp[39];
 	acp[40].unicode = 0x0020;
